@@ -202,7 +202,11 @@ func observe(rm message.RpcMessage, data []byte) *Msg {
 		}
 	}
 	if !m.BodyOK {
-		m.Body = hx(append([]byte("<<body differs>>"), encodeGuarded(rm.Codec, rm.Body)...))
+		enc := encodeGuarded(rm.Codec, rm.Body)
+		if len(enc) > 96 { // a body fabricated from bytes outside the frame can be huge
+			enc = enc[:96]
+		}
+		m.Body = hx(append([]byte("<<body differs>>"), enc...))
 	}
 	return m
 }
@@ -319,6 +323,9 @@ const gettyReadBufLen = 4 * 1024 // getty v1.5.0 maxReadBufLen
 // has been consumed. The delivered message OBJECTS are kept and looked at again after the whole
 // stream (and one more receive) has gone through the buffer.
 func driveLoopShared(chunks [][]byte) (evs []Ev, late string) {
+	if diverged >= 1 {
+		return nil, ""
+	}
 	type kept struct {
 		obj   *message.RpcMessage
 		frame []byte
@@ -664,6 +671,9 @@ func garbageOracleRes(r Res) string {
 		if r.N <= 0 {
 			return "Read returned a package with consumed length 0 (the transport loop spins)"
 		}
+		if r.M != nil && !r.M.BodyOK {
+			return "the delivered body is not what the codec decodes from the bytes of this frame (head length .. total length): it depends on bytes outside the frame"
+		}
 	case "need":
 		if r.Stall {
 			return "Read answered 'need more data' although a complete frame is at the head of the buffer: the frame is neither delivered nor rejected, the transport loop waits for ever"
@@ -690,6 +700,10 @@ func garbageOracleEvs(evs []Ev) string {
 			return "Read hung inside the receive loop"
 		case "spin":
 			return "a package with consumed length 0 was delivered: the transport loop spins"
+		case "deliver":
+			if e.M != nil && !e.M.BodyOK {
+				return "a delivered body is not what the codec decodes from the bytes of its own frame (head length .. total length): it depends on bytes outside the frame, i.e. on where the stream is cut"
+			}
 		case "stall":
 			return "'need more data' with a complete frame at the head of the buffer: neither delivered nor rejected, every later frame of the connection is stuck behind it"
 		}
@@ -823,7 +837,7 @@ func driveCaseBad(kind string, data []byte, parts [][]int, want []Msg, valid boo
 	}
 	t := &tblEv{keys: map[string]int{}}
 	for pi, lens := range parts {
-		if diverged >= 2 {
+		if diverged >= 1 {
 			break
 		}
 		freshHandler()
@@ -831,6 +845,9 @@ func driveCaseBad(kind string, data []byte, parts [][]int, want []Msg, valid boo
 		dc.Parts = append(dc.Parts, Part{Lens: append([]int{}, lens...), Ev: t.add(evs)})
 		freshHandler()
 		evs2, late := driveLoopShared(cut(data, lens))
+		if diverged >= 1 {
+			evs2 = evs // a hang was met: the run is being cut short
+		}
 		if dc.Oracle == "" {
 			var o string
 			if valid {
@@ -860,7 +877,7 @@ func prefixCase(kind string, data []byte, frames []int, want []Msg) PrefixCase {
 	freshHandler()
 	keys := map[string]int{}
 	for k := 0; k <= len(data); k++ {
-		if diverged >= 2 {
+		if diverged >= 1 {
 			break
 		}
 		r := readOnce(data[:k])
@@ -911,7 +928,7 @@ func readCase(kind string, data []byte, history [][]byte) ReadCase {
 	freshHandler()
 	rr := readOnce(data)
 	rc := ReadCase{Kind: kind, Data: hx(data), Res: rr, Oracle: garbageOracleRes(rr)}
-	if len(history) > 0 && diverged < 2 {
+	if len(history) > 0 && diverged < 1 {
 		freshHandler()
 		for _, h := range history {
 			rc.History = append(rc.History, hx(h))
@@ -1040,6 +1057,12 @@ func replay(path string, res *Result) {
 //	maxcut2= streams up to this many bytes get every 2-cut partition
 //	replay=<file> re-run the inputs of a recorded case instead of generating
 func Run(a map[string]string) {
+	// whatever the code under test does (multi-gigabyte allocations after reading a length from
+	// the wrong place, ...): the run ends, and says so
+	time.AfterFunc(150*time.Second, func() {
+		hutil.WriteJSON(a["out"], Result{Aborted: "the harness run did not finish within 150 s (reads that hang or allocate without bound)"})
+		os.Exit(0)
+	})
 	codec.Init()
 	seed := hutil.ArgU64(a, "seed", 1)
 	n := hutil.ArgInt(a, "n", 40)
@@ -1056,7 +1079,7 @@ func Run(a map[string]string) {
 	}
 
 	// (1) Write against the model; (2) single frames followed by arbitrary bytes
-	for i := 0; i < n && diverged < 2; i++ {
+	for i := 0; i < n && diverged < 1; i++ {
 		r := root.Fork(uint64(1000 + i))
 		m := genMsg(r)
 		out, err := writeFrame(m)
@@ -1084,7 +1107,7 @@ func Run(a map[string]string) {
 
 	// (3) streams of 1..5 frames: every prefix, every 2-cut partition when short,
 	// random partitions always
-	for i := 0; i < n && diverged < 2; i++ {
+	for i := 0; i < n && diverged < 1; i++ {
 		r := root.Fork(uint64(2000 + i))
 		k := 1 + r.Intn(5)
 		if i%3 == 0 {
@@ -1196,6 +1219,55 @@ func Run(a map[string]string) {
 			res.Drives = append(res.Drives, driveCaseBad("stream+undecodable", d2, parts2, w2, false, bad))
 		}
 
+		// (3b') a frame whose body is SHORTER than what its codec reads (a peer that omits trailing
+		// fields): the body cut at a random point, the total length adjusted, further frames behind it.
+		// Its delivery is what the codec makes of exactly these bytes, wherever the stream is cut.
+		if len(frames) >= 2 {
+			var cand []int
+			p := 0
+			for j, f := range frames {
+				hl := int(uint16(data[p+7])<<8 | uint16(data[p+8]))
+				if j < len(frames)-1 && f-hl >= 4 && data[p+9] != 3 && data[p+9] != 4 {
+					cand = append(cand, j)
+				}
+				p += f
+			}
+			if len(cand) > 0 {
+				j := cand[r.Intn(len(cand))]
+				var d3 []byte
+				var w3 []Msg
+				var cuts []int
+				p = 0
+				for x, f := range frames {
+					fr := append([]byte{}, data[p:p+f]...)
+					w := want[x]
+					if x == j {
+						hl := int(uint16(fr[7])<<8 | uint16(fr[8]))
+						drop := 1 + r.Intn(f-hl-2) // at least the type code stays
+						fr = fr[:f-drop]
+						t := uint32(len(fr))
+						fr[3], fr[4], fr[5], fr[6] = byte(t>>24), byte(t>>16), byte(t>>8), byte(t)
+						w.Body = hx(fr[hl:])
+					}
+					d3 = append(d3, fr...)
+					w3 = append(w3, w)
+					cuts = append(cuts, len(d3))
+					p += f
+				}
+				parts3 := [][]int{{}}
+				for _, c := range cuts {
+					if c < len(d3) {
+						parts3 = append(parts3, []int{c}, []int{c + 1}, []int{c + 3})
+					}
+				}
+				for x := 0; x < 4; x++ {
+					parts3 = append(parts3, randomPartition(r, len(d3)))
+				}
+				res.Reads = append(res.Reads, readCase("shortbody+rest", d3, nil))
+				res.Drives = append(res.Drives, driveCase("stream+shortbody", d3, parts3, w3, true))
+			}
+		}
+
 		// (3c) two connections on one handler: A receives this stream but stops mid-frame, B receives
 		// another stream completely; the receives are interleaved
 		{
@@ -1250,7 +1322,7 @@ func Run(a map[string]string) {
 	// (4) garbage: structured (valid magic, hostile lengths) and random; single
 	// reads, all prefixes, and through the loop under random partitions; also
 	// valid frames followed by garbage and garbage in the middle of a stream
-	for i := 0; i < ng && diverged < 2; i++ {
+	for i := 0; i < ng && diverged < 1; i++ {
 		r := root.Fork(uint64(3000 + i))
 		var data []byte
 		kind := "hostile"
@@ -1287,8 +1359,8 @@ func Run(a map[string]string) {
 		res.Drives = append(res.Drives, driveCase(kind, data, parts, nil, false))
 	}
 	res.ReadCalls = readCalls
-	if diverged >= 2 {
-		res.Aborted = "Read did not return on two inputs; the run was cut short"
+	if diverged >= 1 {
+		res.Aborted = "Read did not return on an input; the run was cut short"
 	}
 	hutil.WriteJSON(a["out"], res)
 }
